@@ -195,8 +195,12 @@ fn lockstep_bfs<D: ByteDev>(ctx: &mut Ctx, label: &str) -> (usize, u64) {
         }
     }
     let expect_ctx = if D::SET == 2 { 6 } else { 3 };
-    ctx.expect(ref_ctxs.len() == expect_ctx, &format!("{}: all {} reference prefix contexts visited (saw {})", label, expect_ctx, ref_ctxs.len()));
-    ctx.expect(g.edges == g.states.len() as u64 * 256, &format!("{}: transitions == states x 256", label));
+    if g.capped {
+        ctx.cap_hit(label, 20_000);
+    } else {
+        ctx.expect(ref_ctxs.len() == expect_ctx, &format!("{}: all {} reference prefix contexts visited (saw {})", label, expect_ctx, ref_ctxs.len()));
+        ctx.expect(g.edges == g.states.len() as u64 * 256, &format!("{}: transitions == states x 256", label));
+    }
     ctx.states += g.states.len() as u64;
     ctx.transitions += g.edges;
     ctx.traces_validated += g.edges;
@@ -361,7 +365,7 @@ fn count_nontrivial(set: u8) -> u64 {
     let mut n = 0;
     for c in ctxs {
         for b in 0..=255u8 {
-            if matches!(ref_step(set, c, b).0, Allowed::Event(..)) {
+            if matches!(ref_step(set, c, b).0, Allowed::Event(..) | Allowed::EventNamed(..)) {
                 n += 1;
             }
         }
@@ -373,6 +377,8 @@ pub fn c01(ctx: &mut Ctx) -> (u64, String) {
     ctx.trust("R-SET2: IBM/Microsoft Set 2 table = README conversion table with the NumpadEnter row corrected to E0 5A (harness/src/refs/scancodes.rs TABLE)");
     ctx.trust("R-AUTO2: prefix grammar [E0|E1] [F0] code as a 6-context automaton (refs/scancodes.rs auto2)");
     ctx.assume("F0 00 and F0 AA are outside the statement: an Up/SingleShot of the status key or UnknownKeyCode are all accepted there");
+    let extras = load_readme_extras(&crate::repo_dir());
+    ctx.set("readme_rows_for_keys_unknown_to_the_harness", json!(extras));
     lockstep_bfs::<ScancodeSet2>(ctx, "bfs:ScancodeSet2 x R-AUTO2");
     lockstep_bfs::<Keyboard<Echo, ScancodeSet2>>(ctx, "bfs:Keyboard::add_byte(Set2) x R-AUTO2");
     let depth = if ctx.thorough() { 4 } else { 3 };
@@ -391,6 +397,8 @@ pub fn c01(ctx: &mut Ctx) -> (u64, String) {
 pub fn c02(ctx: &mut Ctx) -> (u64, String) {
     ctx.trust("R-SET1: IBM/Microsoft Set 1 table = README conversion table with the Apps row corrected to E0 5D; JIS keys at unprefixed 70/73/79/7B/7D (refs/scancodes.rs TABLE)");
     ctx.trust("R-AUTO1: prefix grammar [E0|E1] byte, bit 7 = release, as a 3-context automaton (refs/scancodes.rs auto1)");
+    let extras = load_readme_extras(&crate::repo_dir());
+    ctx.set("readme_rows_for_keys_unknown_to_the_harness", json!(extras));
     lockstep_bfs::<ScancodeSet1>(ctx, "bfs:ScancodeSet1 x R-AUTO1");
     lockstep_bfs::<Keyboard<Echo, ScancodeSet1>>(ctx, "bfs:Keyboard::add_byte(Set1) x R-AUTO1");
     let depth = if ctx.thorough() { 4 } else { 3 };
@@ -440,6 +448,9 @@ fn c07_graph<D: ByteDev>(ctx: &mut Ctx, label: &str, max_chain: u32) {
     let (g, sr, errs) = explore_both(sys.clone(), true, 20_000);
     for e in errs {
         ctx.machinery(&format!("{}: {}", label, e));
+    }
+    if g.capped {
+        ctx.cap_hit(label, 20_000);
     }
     // every terminal edge (event or error) must end in a state behaviourally equivalent to the
     // initial one: identical by identity, or else no byte sequence may distinguish them.
